@@ -326,7 +326,7 @@ func runC19(t *testing.T, tape *sim.Tape, tier string) *Outcome {
 func init() {
 	register(&Check{
 		ID: "C19", Bubble: true, Run: runC19,
-		Runs:   map[string]int{"quick": 160, "thorough": 1600},
+		Runs:   map[string]int{"quick": 800, "thorough": 2400},
 		Rule:   "a case (evaluation) is one connection lifetime inside a churn run: plain and TLS ports, optional common-name rule, reference store; each run opens 30 (thorough 1500) connections in batches with up to 1..32 in flight, each ended by a drawn mode {FIN at a request boundary or inside a request (half-close/close), RST at boundary/inside, QUIT, malformed frame, write failure after the client stopped reading, TLS garbage / abort after ClientHello / untrusted certificate / certificate rejected by the rule, TLS session then close or reset, idle then close}, interleaved by the seeded scheduler; some stay idle across batches; a third of the runs end with Stop while connections are idle, mid-request and mid-handshake; accounting (socket closed, goroutine gone, registry entry gone; idle baseline at the end) at every drain point; distinct = distinct event-log hashes of runs",
 		Real:   []string{"redis.Server accept loops, TLS handshake goroutine, connection loop, ConnManager, Stop", "crypto/tls"},
 		Stub:   []string{"network: simulated (descriptor count = server-side ends not yet closed; real descriptors do not exist in the simulation)", "handler: reference store"},
